@@ -534,6 +534,22 @@ impl Unparser<'_> {
             }
             Expr::Negative(expr) => {
                 let sql_parser_expr = self.expr_to_sql_inner(expr)?;
+                // `-` directly followed by an operand that itself starts with
+                // `-` would read as `--`, the start of a SQL comment
+                // (a nested negation or a negative numeric literal)
+                let starts_with_minus = match &sql_parser_expr {
+                    AstExpr::UnaryOp {
+                        op: UnaryOperator::Minus,
+                        ..
+                    } => true,
+                    AstExpr::Value(value) => value.to_string().starts_with('-'),
+                    _ => false,
+                };
+                let sql_parser_expr = if starts_with_minus {
+                    AstExpr::Nested(Box::new(sql_parser_expr))
+                } else {
+                    sql_parser_expr
+                };
                 Ok(AstExpr::UnaryOp {
                     op: UnaryOperator::Minus,
                     expr: Box::new(sql_parser_expr),
